@@ -42,7 +42,10 @@ def export_family(name, tier, module="Gen_Families"):
             # drop exports of this family made from older versions of the specification
             for old in os.listdir(cdir):
                 if old.startswith("%s-%d-" % (name, tier)) and os.path.join(cdir, old) != path:
-                    os.remove(os.path.join(cdir, old))
+                    try:
+                        os.remove(os.path.join(cdir, old))
+                    except OSError:
+                        pass          # another check removed it first
         finally:
             shutil.rmtree(wd, ignore_errors=True)
     cfgs = []
